@@ -117,4 +117,14 @@ theorem C13_cli_passes_options :
        ("parse_command_line", "prefixcount", "args.prefixcount")] := by
   decide
 
+/-- **every tool works on the same `Rules` folder** (regenerated from the five programs): the trainer, the guesser, `edit_rules.py`,
+`prince_ling.py` and the scorer each build the ruleset directory from one and the same expression for their own location - so a ruleset
+one tool wrote or edited under a name is the ruleset another tool reads under that name, from whatever directory or through whatever link
+either was started -/
+theorem C13_tools_share_the_rules_folder :
+    (["trainer.py", "pcfg_guesser.py", "edit_rules.py", "prince_ling.py", "password_scorer.py"].all
+      fun p => Generated.CliOptions.rulesDirRoots.any (·.1 == p)) = true ∧
+    ∀ a ∈ Generated.CliOptions.rulesDirRoots, ∀ b ∈ Generated.CliOptions.rulesDirRoots, a.2 = b.2 := by
+  decide
+
 end Pcfg.C13
